@@ -157,6 +157,7 @@ Section WalletSpecProofs.
     spec_step m pw0 prev ac o r cur = Some ac' ->
     step_okP m pw0 prev (a_hp ac) o r cur (a_hp ac').
   Proof.
+    clear F_eqb_spec kdff.
     intros m pw0 prev ac o r cur ac' Hs. unfold WalletSpec.spec_step in Hs.
     destruct (wrong_pw A K P H Nm PW H_eqb kdf pw0 o && negb (is_ierr A K M r && unchanged prev cur)) eqn:Hw;
       [discriminate|].
